@@ -117,7 +117,7 @@ def step_name(s) -> str:
     return s['op']
 
 
-def single_pipelines(nsites: int, is_chain: bool, mono_ctxs: list[str]) -> list[list[dict]]:
+def single_pipelines(nsites: int, filters: list, mono_ctxs: list[str]) -> list[list[dict]]:
     out: list[list[dict]] = []
     for rec in (True, False):
         out.append([inl(None, rec)])
@@ -129,11 +129,8 @@ def single_pipelines(nsites: int, is_chain: bool, mono_ctxs: list[str]) -> list[
         out.append([inl(['top', k], True)])
     if nsites:
         out.append([inl(['body', 0], False)])
-    out.append([inl(None, True, ['g'])])
-    if is_chain:
-        out.append([inl(None, True, ['h'])])
-        out.append([inl(None, False, ['g'])])
-        out.append([inl(None, True, ['g', 'h'])])
+    for names, rec in filters:                     # `funcs` filters: (function names, recursive)
+        out.append([inl(None, rec, list(names))])
     out.append([inl(['idx', nsites], True)])        # names no site: must refuse
     for c in mono_ctxs:
         out.append([mono(c)])
@@ -146,6 +143,20 @@ def single_pipelines(nsites: int, is_chain: bool, mono_ctxs: list[str]) -> list[
     for s in base_steps(mono_ctxs):
         if json.dumps([s], sort_keys=True) not in have:
             out.append([s])
+    return out
+
+
+def funcs_filters(desc) -> list:
+    if desc[0] == 'pair':
+        return [(['g'], True)]
+    if desc[0] == 'chain':
+        return [(['g'], True), (['h'], True), (['g'], False), (['g', 'h'], True)]
+    names = pg.fact_functions(desc)
+    leaves = [n for n in names if n.startswith('g')]
+    helpers = [n for n in names if not n.startswith('g')]
+    out = [(leaves, True), (leaves, False), (leaves[:1], True), (leaves[1:], True)]
+    if helpers:
+        out += [(helpers, True), (helpers, False), (leaves[:1] + helpers, True), (names, False)]
     return out
 
 
@@ -260,7 +271,7 @@ def call(fn: Function, inp, ctx):
 class Check(BaseCheck):
     pid = 'C09'
     rule = ('every program of the C09 grammar (caller/callee pairs: 3 callee contexts x 8 callee bodies x 28 call '
-            'positions x 2 argument forms; 3-chains: 3x3 contexts x 4 chain bodies x 8 leaf bodies x 9 positions) x '
+            'positions x 2 argument forms; factory family (2-3 callees capturing different/same values under one name: 3 contexts x 2 bodies x 9 layouts x 2 variants); 3-chains: 3x3 contexts x 4 chain bodies x 8 leaf bodies x 9 positions) x '
             'every pipeline of length 1 and every ordered pair of 7 base transformations x every pool input x every '
             'pool caller context; f(args, ctx=C) vs T(f)(args, ctx=C) (mono(C): T(f)(args) without ctx; close: '
             'captured globals changed after closing). nontrivial = judged case whose transformed program text '
@@ -289,18 +300,20 @@ class Check(BaseCheck):
         if self._programs is None:
             pairs = pg.all_pairs()
             chains = pg.all_chains()
+            facts = pg.all_facts()
             if self.tier == 'thorough':
-                self._programs = pairs + chains
+                self._programs = pairs + facts + chains
             else:
                 # complete core: every pair; plus a seed-rotated 1/16 slice of the chains
                 k = self.seed % 16
-                self._programs = pairs + [c for i, c in enumerate(chains) if i % 16 == k]
+                self._programs = pairs + facts + [c for i, c in enumerate(chains) if i % 16 == k]
         return self._programs
 
     def bounds(self):
         ps = self.programs()
         return {'programs': len(ps), 'pairs': sum(1 for p in ps if p[0] == 'pair'),
                 'chains': sum(1 for p in ps if p[0] == 'chain'),
+                'factory_programs': sum(1 for p in ps if p[0] == 'fact'),
                 'chains_total': len(pg.all_chains()),
                 'inputs': len(self.inputs), 'caller_contexts': self.ctx_texts,
                 'pipelines_len1': 'about 15-20 per program (depends on the number of call sites)',
@@ -370,7 +383,7 @@ class Check(BaseCheck):
             except Exception as e:  # noqa: BLE001
                 r.notes.append(f'sites(inline) raised {type(e).__name__} on position {shape["position"]}')
                 nsites = 1
-            pipelines = single_pipelines(nsites, desc[0] == 'chain', self.mono_ctxs)
+            pipelines = single_pipelines(nsites, funcs_filters(desc), self.mono_ctxs)
             if self.tier == 'thorough' or not (desc[0] == 'pair' and desc[4] == 'A1'):
                 # quick: the A1 pairs get the length-1 pipelines only
                 pipelines = pipelines + pair_pipelines(self.mono_ctxs)
@@ -424,8 +437,8 @@ class Check(BaseCheck):
         change_globals = has_close and globals_can_change(t)
         saved = None
         if change_globals:
-            saved = {k: mod.__dict__[k] for k in pg.GLOBALS_CHANGED}
-            mod.__dict__.update(pg.GLOBALS_CHANGED)
+            saved = {k: mod.__dict__[k] for k in pg.GLOBALS_CHANGED if k in mod.__dict__}
+            mod.__dict__.update({k: pg.GLOBALS_CHANGED[k] for k in saved})
             r.count('close_pipelines_with_globals_changed')
         bad = False
         try:
